@@ -315,6 +315,38 @@ fn exec_line(cx: &mut Ctx, line: &str) -> String {
                 }
             }
         }
+        ["enc", ids] => {
+            // the physical EncodedU64Array that from_slice builds for array-like encodings (read off the protobuf form)
+            let Some(ids) = parse_nat_list(ids) else { return BAD.into() };
+            let Some(seg) = pcatch(|| U64Segment::from_slice(&ids)) else { return PANIC.into() };
+            let p = pb::U64Segment::from(seg);
+            use pb::encoded_u64_array::Array as A;
+            use pb::u64_segment::Segment as S;
+            let (tag, arr) = match p.segment.as_ref().expect("segment") {
+                S::SortedArray(a) => ("S", a),
+                S::Array(a) => ("A", a),
+                _ => return "other".into(),
+            };
+            if dec_array(arr) != ids {
+                cx.fail("encoded_array_roundtrip", format!("EncodedU64Array decodes to {:?}, built from {:?}", dec_array(arr), ids));
+            }
+            match arr.array.as_ref().expect("array") {
+                A::U16Array(x) => format!(
+                    "{tag} U16 {} {}",
+                    x.base,
+                    show_nat_list(x.offsets.chunks_exact(2).map(|c| u16::from_le_bytes([c[0], c[1]]) as u64))
+                ),
+                A::U32Array(x) => format!(
+                    "{tag} U32 {} {}",
+                    x.base,
+                    show_nat_list(x.offsets.chunks_exact(4).map(|c| u32::from_le_bytes(c.try_into().unwrap()) as u64))
+                ),
+                A::U64Array(x) => format!(
+                    "{tag} U64 {}",
+                    show_nat_list(x.values.chunks_exact(8).map(|c| u64::from_le_bytes(c.try_into().unwrap())))
+                ),
+            }
+        }
         ["sraw", r, d] => {
             let Some(d) = parse_segd(d) else { return BAD.into() };
             let s = seg_of(&d);
@@ -1228,7 +1260,30 @@ impl Prop for C34 {
                         out.push(format!("spos {a} {v}"));
                     }
                     6 => out.push(format!("srange {a}")),
-                    _ => out.push(format!("siter {a}")),
+                    _ => {
+                        if rng.chance(1, 2) {
+                            out.push(format!("siter {a}"));
+                        } else {
+                            // array-like id lists whose span sits around the u16 / u32 offset limits
+                            let k = rng.range(2, 6);
+                            let span = match rng.below(5) {
+                                0 => 65535,
+                                1 => 65536,
+                                2 => u32::MAX as u64,
+                                3 => u32::MAX as u64 + 1,
+                                _ => rng.range(40, 100000),
+                            };
+                            let b0 = match rng.below(3) { 0 => 0, 1 => rng.below(1 << 40), _ => u64::MAX - 1 - span - rng.below(100) };
+                            let mut v: Vec<u64> = vec![b0, b0 + span];
+                            for _ in 2..k {
+                                v.push(b0 + rng.below(span + 1));
+                            }
+                            let mut seen = HashSet::new();
+                            v.retain(|x| seen.insert(*x));
+                            if rng.chance(1, 2) { v.sort(); } else { let j = rng.usize(v.len()); v.swap(0, j); }
+                            out.push(format!("enc {}", show_nat_list(v)));
+                        }
+                    }
                 }
             } else if !seqs.is_empty() {
                 let a = rng.pick(&seqs).clone();
